@@ -67,15 +67,15 @@ def run_labelled(algo, O, S, leafmap, leafsyn, costs, policy, rootsyn=None, keep
         if pres["same_labels"] and O.is_binary() and S.is_binary():
             onames = {v: ("90" if O.children[v] else f"o{v}") for v in range(O.n)}
         inp, onode, snode = A.build_input(O, S, leafmap, costs, ls, unordered=not is_ord, rootsyn=rs, onames=onames)
-        # operation history (one input in three, never the "mid" presentation): the OTHER solvers that accept this input
+        # operation history (about one input in nine, never the "mid" presentation): the OTHER solvers that accept this input
         # object run on it before this one - for an ordered input also the unordered ones, which read the same leaf lists as
         # sets, and the base variant before the extended one - and once more after it; none may leave a trace in the
         # caller's input, and what this solver returned must still cost the same afterwards
         hsum = sum((i + 1) * leafmap[k] for i, k in enumerate(sorted(leafmap)))     # position-weighted: not tied to a shape
-        history = (not pres["alias"]) and hsum % 3 == 0 and O.is_binary() and S.is_binary()
+        history = (not pres["alias"]) and hsum % 9 == 0 and O.is_binary() and S.is_binary()
         others = [o_ for o_ in (("superdtl", "base_uspfs", "base_spfs", "ext_spfs") if is_ord else ("base_uspfs", "superdtl"))
                   if o_ != algo and not (rs is not None and SOLVERS[o_][1] != "ordered")] if history else []
-        before = history and hsum % 6 == 0       # the others run first; otherwise they only run afterwards
+        before = history and hsum % 18 == 0       # the others run first; otherwise they only run afterwards
         for other in (others if before else []):
             try:
                 list(SOLVERS[other][0](inp, A.POLICY["ANY"]))
